@@ -25,9 +25,11 @@ import (
 func init() {
 	fw.Register(&fw.Prop{
 		ID:                  "C09",
-		DeadlockIsViolation: true,                       // the calls of this property are synchronous functions of their inputs: a call blocked for good inside the library is a violation
-		Builds:              []string{"default", "386"}, // the 386 build runs 1/8 of the random classes on a 32-bit target
-		Scale386:            8,
+		DeadlockIsViolation: true,                               // the calls of this property are synchronous functions of their inputs: a call blocked for good inside the library is a violation
+		Builds:              []string{"default", "386", "race"}, // the 386 build runs 1/8 of the random classes on a 32-bit target
+		// race build: only the classes in which several goroutines are inside the library at once, under the race detector
+		RaceClasses: []string{"concurrent"},
+		Scale386:    8,
 		Rule: "seed: valid mnemonics of all 13 lengths in both lists (given directly or parsed from a string joined by various white space) x passphrases from the corpus produced by tools/nfkd_corpus.py (python unicodedata NFKD; empty, ASCII, composed/decomposed accents, runs of combining marks, ligatures, full-width forms, Hangul, kana with dakuten, 1..200 code points; every character assigned since Unicode 3.2 that changes under NFKD appears): the 64 bytes must equal own PBKDF2-HMAC-SHA512(2048, words joined by single spaces, \"mnemonic\"+python-NFKD(passphrase)); invalid mnemonics (a word missing, a non-word, another list's word, words cut to their unique four-letter prefix, a non-word colliding with the list word in its place under a common 32-bit digest) must give an error and no seed; at every eighth point where the monitor selects or confirms the word list, a SetWordList call with an unregistered key follows (it must fail, and the list of the last successful call stays in force); seed_variant: a directly built Mnemonic holding a valid sentence's words NFC-composed or in fullwidth letters (inputs built with x/text, expectation from the embedded official list) must either be refused or give the seed of the normalized sentence; seed_sequence: a valid sentence, then the same printed form split into other elements, then the same sentence after SetWordList(other list) (both invalid), then back; concurrent: 8 goroutines decode sentences of all 13 lengths at once. parse: words in variant forms (as is, NFC, NFD, NFKC) joined by random runs of Unicode white space must parse to the python-NFKD words; parse(print(parse(s))) == parse(s) and the text (un)marshalers agree, on arbitrary strings; UnmarshalText is also called on buffers that the caller overwrites afterwards. " +
 			"Non-trivial: seed cases whose passphrase changes under NFKD; parser inputs containing a non-ASCII byte.",
 		Assumptions: []string{"python3 unicodedata NFKD (independent of golang.org/x/text)", "HMAC-SHA512 of the Go standard library", "own PBKDF2 loop and bit-level model in harness/oracle/bip39m (self-tested on Trezor vectors in both languages)", "characters limited to those assigned since Unicode 3.2 outside the CJK compatibility ideograph blocks (normalization stability)"},
@@ -457,6 +459,15 @@ type line struct {
 }
 
 func gen(g *fw.Gen) {
+	if g.Build == "race" {
+		// race build: only the class in which several goroutines are inside the library at once is generated
+		for l := byte(0); l < 2; l++ {
+			for n := g.ShareOf(16, 800); n > 0; n-- {
+				g.Emit("concurrent", fw.Pack([]byte{l}, fw.U64(g.Rng.Uint64())))
+			}
+		}
+		return
+	}
 	path := os.Getenv("VERIF_C09_CORPUS")
 	f, err := os.Open(path)
 	if err != nil {
